@@ -27,7 +27,7 @@ ASSUMPTIONS = [
 ]
 
 HOSTILE = ['"', ";", "=", ",", "%", "\\", "[", "]", ":", "@", " ", "\t", "\x80", "\xff", "a", "1", "-", "/", "*"]
-NUMS = ["", "-1", "9" * 5000, "9" * 20, "99999", "4294967296", "0000", "١", "1e5", "0x10", " 7", "+3"]
+NUMS = ["", "-1", "0" * 5000 + "1", "9" * 5000, "9" * 20, "99999", "4294967296", "0000", "١", "1e5", "0x10", " 7", "+3"]
 LONG = "x" * 3000
 
 BASES = {
